@@ -84,12 +84,18 @@ def cfg_roundtrip(tier, seed):
     top = 4 if tier == 'quick' else 6
     out = [{'m': m, 'n': n, 'unitary': u, 'out': o} for m in range(1, top + 1) for n in range(1, top + 1)
            for u in (True, False) for o in ((False, True) if (m, n) in ((2, 3), (3, 3), (1, 2)) else (False,))]
+    # the flag given as something other than the literals: 0 / 1 and numpy booleans (the result of a comparison)
+    out += [{'m': m, 'n': n, 'unitary': u, 'out': o, 'uform': uf} for (m, n) in ((1, 2), (2, 2), (2, 3)) for u in (True, False)
+            for o in (False, True) for uf in ('int', 'npbool')]
     return out, len(out), True
 
 
 def run_roundtrip(W, cfg):
     m, n = cfg['m'], cfg['n']
     lt = W.lentil
+    if cfg.get('uform'):
+        import numpy as _np
+        cfg = dict(cfg, unitary=(int(cfg['unitary']) if cfg['uform'] == 'int' else _np.bool_(cfg['unitary'])))
     f = W.complexes('f', (m, n))
     alpha = (W.const(Fraction(1, m)), W.const(Fraction(1, n)))
     G = lt.fourier.dft2(f, alpha, unitary=cfg['unitary'])
